@@ -393,9 +393,17 @@ func buildQueries(r *compiler.Result, settings config.CombinedSettings, structs 
 			}}
 		} else {
 			args := make([]QueryValue, 0, len(query.Params))
+			seen := map[string]int{}
 			for _, p := range query.Params {
+				// two arguments of one function cannot share a name: suffix
+				// the later ones as the params struct does
+				name := paramName(p)
+				if v := seen[paramName(p)]; v > 0 {
+					name = fmt.Sprintf("%s_%d", name, v+1)
+				}
+				seen[paramName(p)]++
 				args = append(args, QueryValue{
-					Name: paramName(p),
+					Name: name,
 					Typ:  makePyType(r, p.Column, settings),
 				})
 			}
